@@ -20,8 +20,86 @@ ASSUMPTIONS = ["vp/collmodel.py is the documented value/delta semantics of the s
                "g++-12 -O1 build of the working tree with harness-side shims"]
 FLOORS = {"ticks_checked": {"quick": 4000, "thorough": 60000}, "cancelling_cycles": {"quick": 100, "thorough": 1500},
           "nested_child_deltas": {"quick": 500, "thorough": 8000}, "window_ticks": {"quick": 200, "thorough": 3000},
-          "removed_values_read": {"quick": 200, "thorough": 3000}}
+          "removed_values_read": {"quick": 200, "thorough": 3000}, "duration_window_ticks": {"quick": 2000, "thorough": 30000},
+          "window_growth_after_wrap": {"quick": 100, "thorough": 1500}}
 BATCH = 20
+
+
+def gen_window_case(rng, name):
+    """stdlib to_window over duration and tick-count windows of several sizes, fed by streams that mix sparse stretches,
+    bursts on consecutive steps and long gaps (ring growth on a wrapped buffer, partial and total expiry)."""
+    from .prog import Case, S
+    end = rng.choice([40, 80, 160])
+    c = Case(name, 0, end)
+    t, sc, v = rng.choice([0, 0, 3]), [], 100
+    while t < end:
+        sc.append((t, v))
+        v += 1
+        mode = rng.random()
+        t += 1 if mode < 0.45 else rng.choice([2, 3, 4, 5]) if mode < 0.85 else rng.choice([7, 11, 16, 30])
+    c.scripts[1] = sc
+    main = [S("a", "src", uid=1, mode=0)]
+    wins = []
+    for j in range(rng.choice([2, 3, 4])):
+        ticks = rng.random() < 0.35
+        period = rng.choice([2, 3, 5, 8, 13]) if ticks else rng.choice([3, 5, 10, 17, 30])
+        mn = rng.choice([1, 2, period]) if ticks else rng.choice([1, 2, 5])
+        main.append(S("", "towin", "a", uid=10 + j, period=period, min=min(mn, period), ticks=1 if ticks else 0))
+        wins.append({"uid": 10 + j, "period": period, "min": min(mn, period), "ticks": ticks})
+    c.graphs["main"] = main
+    c.meta.update(kind="win", wins=wins)
+    return c
+
+
+def check_windows(case, tr):
+    res = Result(signature=case.text().split("\n", 1)[1])
+    run = tr.runs[0]
+    if tr.build_error or run.error:
+        res.violations.append(Violation(f"build/run failed: {tr.build_error or run.error}"))
+        return res
+    dumps = parse_dumps(run)
+    pushes = [(t, v) for t, v in case.scripts[1] if case.start <= t < case.end]
+    V, C = [], {"window_ticks": 0, "duration_window_ticks": 0, "window_expiries": 0, "window_growth_after_wrap": 0}
+    for w in case.meta["wins"]:
+        stream = {t: d for t, d, _ in dumps.get(w["uid"], [])}
+        if sorted(stream) != [t for t, _ in pushes]:
+            V.append(f"window uid {w['uid']} ticked at {sorted(stream)[:10]} but values were pushed at {[t for t, _ in pushes][:10]}")
+            continue
+        model, evicted_since_growth, cap = [], False, 0
+        for n, (t, v) in enumerate(pushes, 1):
+            before = len(model)
+            if w["ticks"]:
+                model = (model + [(t, v)])[-w["period"]:]
+            else:
+                model = [(tt, vv) for tt, vv in model if tt >= t - w["period"]] + [(t, v)]      # trailing range, oldest first
+            if len(model) <= before:
+                C["window_expiries"] += 1
+                evicted_since_growth = True
+            if len(model) > cap:
+                if evicted_since_growth and cap:
+                    C["window_growth_after_wrap"] += 1
+                cap, evicted_since_growth = len(model), False
+            d = stream[t]
+            C["window_ticks"] += 1
+            C["duration_window_ticks"] += 0 if w["ticks"] else 1
+            if "error" in d:
+                V.append(f"window uid {w['uid']} t={t}: reading the input threw: {d['error']}")
+                continue
+            got = list(zip(d.get("times", []), [int(x) for x in d["vals"]]))
+            if got != model:
+                V.append(f"window uid {w['uid']} ({'last %d ticks' % w['period'] if w['ticks'] else 'range %d' % w['period']}) t={t}: holds "
+                         f"{got[:8]} but the values pushed within the window are {model[:8]} (oldest first)")
+            if d["size"] != len(model):
+                V.append(f"window uid {w['uid']} t={t}: size {d['size']} != {len(model)}")
+            if w["ticks"] and bool(d["av"]) != (n >= w["min"]):
+                V.append(f"window uid {w['uid']} t={t}: all_valid={d['av']} after {n} pushes with minimum count {w['min']}")
+            if str(d["d"]) != str(v):
+                V.append(f"window uid {w['uid']} t={t}: tick delta {d['d']!r} is not the pushed value {v}")
+    for m in V[:6]:
+        res.violations.append(Violation(m))
+    res.counters = C
+    res.nontrivial = C["window_expiries"] >= 3
+    return res
 
 
 def generate(rng, tier, seed):
@@ -29,6 +107,8 @@ def generate(rng, tier, seed):
     cases = []
     for k in range(n):
         cases.append(gen_coll_case(rng, f"c05_{seed}_{k}", big=(k % 25 == 24)))
+    for k in range(n // 3):
+        cases.append(gen_window_case(rng, f"c05_{seed}_w{k}"))
     return cases
 
 
@@ -123,6 +203,8 @@ def check(case, tr):
     if tr.build_error:
         res.violations.append(Violation(f"valid program rejected at build: {tr.build_error}"))
         return res
+    if case.meta.get("kind") == "win":
+        return check_windows(case, tr)
     run = tr.runs[0]
     if run.error:
         res.violations.append(Violation(f"run failed: {run.error}"))
